@@ -44,6 +44,7 @@ type AsyncScn struct {
 	Overflow   bool      `json:"overflow,omitempty"`     // C12: Block policy with more writes than the buffer holds
 	Restart    bool      `json:"restart,omitempty"`      // direct AsyncLogger: a first life (Start, a few items, Stop) precedes the workload on the SAME object
 	SleepMs    int       `json:"sleep_ms,omitempty"`     // the recording appender takes this much simulated time per item
+	WriteFailAt int      `json:"write_fail_at,omitempty"` // C12 (File kind): the k-th write to the file is refused by the OS once (ENOSPC); everything else must still arrive
 	HName      string    `json:"handle_name,omitempty"`  // C12 (Refresh-built): the logger's name, if not "alog"
 	LongRun    int       `json:"long_run,omitempty"`     // C06: two producers submit this many items against a held worker
 	SyncFail   bool      `json:"sync_fail,omitempty"`    // C05: fsync on the log files fails (EINVAL, as on a pipe or a full disk) from before Stop on
@@ -68,6 +69,7 @@ type Sub struct {
 	Invoke   int
 	Return   int
 	Returned bool
+	Failed   bool // the simulated OS refused this very write (injected fault): it may be absent
 	Panic    any
 	PanicAt  string
 	Empty    bool  // raw write of zero bytes (carries no identity)
